@@ -289,13 +289,11 @@ Definition st_check (t : s_time) : bool :=
    && forallb plain_char (render_time t)
    && time_shape (render_time t)).
 
-Definition st_sweep : bool :=
+Lemma st_sweep_true :
   range_forallb (fun s => range_forallb (fun h => range_forallb (fun m =>
     forallb (fun p => forallb (fun c =>
       st_check {| st_shift := s; st_hh := h; st_pad := p; st_mm := m; st_clock := c |}) [C24; CAm; CPm]) [true; false])
-    0 60) 0 25) (-1) 3.
-
-Lemma st_sweep_true : st_sweep = true.
+    0 60) 0 25) (-1) 3 = true.
 Proof. vm_cast_no_check (eq_refl true). Qed.
 
 Lemma st_all t : wf_time t = true -> st_check t = true.
@@ -304,7 +302,7 @@ Proof.
   assert (Hs : -1 <= st_shift t < -1 + Z.of_nat 3) by lia.
   assert (Hm : 0 <= st_mm t < 0 + Z.of_nat 60) by lia.
   assert (Hh : 0 <= st_hh t < 0 + Z.of_nat 25) by (destruct (st_clock t); lia).
-  pose proof st_sweep_true as S. unfold st_sweep in S.
+  pose proof st_sweep_true as S.
   apply range_forallb_sound with (z := st_shift t) in S; [|exact Hs].
   apply range_forallb_sound with (z := st_hh t) in S; [|exact Hh].
   apply range_forallb_sound with (z := st_mm t) in S; [|exact Hm].
@@ -354,17 +352,15 @@ Definition ct_check (t : time) : bool :=
   && wf_time (canon_time t)
   && time_eqb_full (denote_time (canon_time t)) t.
 
-Definition ct_sweep : bool :=
+Lemma ct_sweep_true :
   range_forallb (fun h => range_forallb (fun m => range_forallb (fun s => forallb (fun f =>
-    ct_check {| t_hour := h; t_min := m; t_shift := s; t_24h := f |}) [true; false]) (-1) 3) 0 60) 0 24.
-
-Lemma ct_sweep_true : ct_sweep = true.
+    ct_check {| t_hour := h; t_min := m; t_shift := s; t_24h := f |}) [true; false]) (-1) 3) 0 60) 0 24 = true.
 Proof. vm_cast_no_check (eq_refl true). Qed.
 
 Lemma ct_all t : valid_time t ->
   print_time t = render_time (canon_time t) /\ wf_time (canon_time t) = true /\ denote_time (canon_time t) = t.
 Proof.
-  intros (Hh & Hm & Hs). pose proof ct_sweep_true as S. unfold ct_sweep in S.
+  intros (Hh & Hm & Hs). pose proof ct_sweep_true as S.
   apply range_forallb_sound with (z := t_hour t) in S; [|lia].
   apply range_forallb_sound with (z := t_min t) in S; [|lia].
   apply range_forallb_sound with (z := t_shift t) in S; [|lia].
@@ -373,4 +369,352 @@ Proof.
   rewrite E in S. unfold ct_check in S.
   repeat (apply andb_true_iff in S as [S ?]).
   split; [apply bytes_eqb_eq; assumption|]. split; [assumption|]. apply time_eqb_full_eq. assumption.
+Qed.
+
+(* ================= durations ================= *)
+
+Lemma span_digits ds r : forallb is_digit ds = true ->
+  match r with c :: _ => is_digit c = false | [] => True end ->
+  span is_digit (ds ++ r) = (ds, r).
+Proof.
+  intros Hd Hr. induction ds as [|c ds IH]; cbn [app span forallb] in *.
+  - destruct r as [|c r]; [reflexivity|]. cbn [span]. rewrite Hr. reflexivity.
+  - apply andb_true_iff in Hd as [Hc Hd]. rewrite Hc, (IH Hd). reflexivity.
+Qed.
+
+(* match_duration after the sign has been split off *)
+Definition md_body (sg : N) (s1 : bytes) : option dur_match :=
+  let '(ds1, r1) := span is_digit s1 in
+  match ds1, r1 with
+  | [], [] => Some {| dm_sign := sg; dm_h := []; dm_m := [] |}
+  | [], _ => None
+  | _, c :: r2 =>
+    if (c =? ch_h)%N then
+      let '(ds2, r3) := span is_digit r2 in
+      match ds2, r3 with
+      | [], [] => Some {| dm_sign := sg; dm_h := ds1; dm_m := [] |}
+      | [], _ => None
+      | _, [c2] => if (c2 =? ch_m)%N then Some {| dm_sign := sg; dm_h := ds1; dm_m := ds2 |} else None
+      | _, _ => None
+      end
+    else if (c =? ch_m)%N then
+      match r2 with
+      | [] => Some {| dm_sign := sg; dm_h := []; dm_m := ds1 |}
+      | _ => None
+      end
+    else None
+  | _, [] => None
+  end.
+
+Lemma match_duration_signed x r : (x =? ch_minus)%N || (x =? ch_plus)%N = true -> match_duration (x :: r) = md_body x r.
+Proof. intros H. unfold match_duration, md_body. rewrite H. reflexivity. Qed.
+
+Lemma match_duration_unsigned x r : (x =? ch_minus)%N || (x =? ch_plus)%N = false -> match_duration (x :: r) = md_body 0%N (x :: r).
+Proof. intros H. unfold match_duration, md_body. rewrite H. reflexivity. Qed.
+
+Lemma digit_not_sign c : is_digit c = true -> (c =? ch_minus)%N || (c =? ch_plus)%N = false.
+Proof. unfold is_digit, ch_minus, ch_plus. lia. Qed.
+
+Lemma md_body_hm sg hs ms : hs <> [] -> ms <> [] -> forallb is_digit hs = true -> forallb is_digit ms = true ->
+  md_body sg (hs ++ [ch_h] ++ ms ++ [ch_m]) = Some {| dm_sign := sg; dm_h := hs; dm_m := ms |}.
+Proof.
+  intros Nh Nm Dh Dm. unfold md_body.
+  rewrite span_digits by (try assumption; reflexivity). cbn [app].
+  destruct hs as [|h0 hs']; [congruence|].
+  rewrite N.eqb_refl. rewrite span_digits by (try assumption; reflexivity).
+  destruct ms as [|m0 ms']; [congruence|]. rewrite N.eqb_refl. reflexivity.
+Qed.
+
+Lemma md_body_h sg hs : hs <> [] -> forallb is_digit hs = true ->
+  md_body sg (hs ++ [ch_h]) = Some {| dm_sign := sg; dm_h := hs; dm_m := [] |}.
+Proof.
+  intros Nh Dh. unfold md_body.
+  rewrite span_digits by (try assumption; reflexivity).
+  destruct hs as [|h0 hs']; [congruence|].
+  rewrite N.eqb_refl. reflexivity.
+Qed.
+
+Lemma md_body_m sg ms : ms <> [] -> forallb is_digit ms = true ->
+  md_body sg (ms ++ [ch_m]) = Some {| dm_sign := sg; dm_h := []; dm_m := ms |}.
+Proof.
+  intros Nm Dm. unfold md_body.
+  rewrite span_digits by (try assumption; reflexivity).
+  destruct ms as [|m0 ms']; [congruence|].
+  change ((ch_m =? ch_h)%N) with false. cbv iota. rewrite N.eqb_refl. reflexivity.
+Qed.
+
+Definition sign_char (s : dsign) : N := match s with SNone => 0%N | SPlus => ch_plus | SMinus => ch_minus end.
+Definition opt_digits (o : option text) : bytes := match o with Some ds => ds | None => [] end.
+
+Lemma integer_ok_inv ds : integer_ok ds = true -> ds <> [] /\ forallb is_digit ds = true.
+Proof.
+  unfold integer_ok. intros H. apply andb_true_iff in H as [H1 H2]. split; [|exact H2].
+  destruct ds; [discriminate|discriminate].
+Qed.
+
+(* the regular expression of durations accepts every literal of the right shape, with the parts as written *)
+Lemma match_render_dur d : dur_shape d = true ->
+  match_duration (render_dur d) = Some {| dm_sign := sign_char (du_sign d); dm_h := opt_digits (du_h d); dm_m := opt_digits (du_m d) |}
+  /\ (opt_digits (du_h d) <> [] \/ opt_digits (du_m d) <> []).
+Proof.
+  unfold dur_shape, render_dur. intros W.
+  repeat (apply andb_true_iff in W as [W ?]).
+  destruct (du_h d) as [hs|], (du_m d) as [ms|]; cbn [present orb opt_ok opt_digits] in *; try discriminate.
+  - apply integer_ok_inv in H1 as [Nh Dh]. apply integer_ok_inv in H0 as [Nm Dm].
+    split; [|left; exact Nh].
+    assert (B : forall sg, md_body sg ((hs ++ [104%N]) ++ (ms ++ [109%N]) ) = Some {| dm_sign := sg; dm_h := hs; dm_m := ms |}).
+    { intros sg. rewrite <- app_assoc. apply md_body_hm; assumption. }
+    destruct hs as [|h0 hs']; [congruence|]. cbn [forallb] in Dh. apply andb_true_iff in Dh as [Dh0 Dh].
+    destruct (du_sign d); cbn [app sign_char].
+    + rewrite match_duration_unsigned by (apply digit_not_sign; exact Dh0). apply B.
+    + rewrite match_duration_signed by reflexivity. apply B.
+    + rewrite match_duration_signed by reflexivity. apply B.
+  - apply integer_ok_inv in H1 as [Nh Dh].
+    split; [|left; exact Nh].
+    assert (B : forall sg, md_body sg ((hs ++ [104%N]) ++ []) = Some {| dm_sign := sg; dm_h := hs; dm_m := [] |}).
+    { intros sg. rewrite app_nil_r. apply md_body_h; assumption. }
+    destruct hs as [|h0 hs']; [congruence|]. cbn [forallb] in Dh. apply andb_true_iff in Dh as [Dh0 Dh].
+    destruct (du_sign d); cbn [app sign_char].
+    + rewrite match_duration_unsigned by (apply digit_not_sign; exact Dh0). apply B.
+    + rewrite match_duration_signed by reflexivity. apply B.
+    + rewrite match_duration_signed by reflexivity. apply B.
+  - apply integer_ok_inv in H0 as [Nm Dm].
+    split; [|right; exact Nm].
+    assert (B : forall sg, md_body sg (ms ++ [109%N]) = Some {| dm_sign := sg; dm_h := []; dm_m := ms |}).
+    { intros sg. apply md_body_m; assumption. }
+    destruct ms as [|m0 ms']; [congruence|]. cbn [forallb] in Dm. apply andb_true_iff in Dm as [Dm0 Dm].
+    destruct (du_sign d); cbn [app sign_char].
+    + rewrite match_duration_unsigned by (apply digit_not_sign; exact Dm0). apply B.
+    + rewrite match_duration_signed by reflexivity. apply B.
+    + rewrite match_duration_signed by reflexivity. apply B.
+Qed.
+
+Lemma opt_value_digits o : opt_value o = digits_val (opt_digits o).
+Proof. destruct o; [apply integer_value_digits_val|reflexivity]. Qed.
+
+Lemma opt_value_nonneg o : opt_ok o = true -> 0 <= opt_value o.
+Proof.
+  destruct o as [ds|]; cbn [opt_ok opt_value]; [|lia].
+  intros H. apply integer_ok_inv in H as [_ H]. rewrite integer_value_digits_val. apply digits_val_nonneg. exact H.
+Qed.
+
+Lemma atoi_or_zero ds : digits_val ds <= max_int64 ->
+  match ds with [] => Some 0 | _ => atoi_digits ds end = Some (digits_val ds).
+Proof.
+  intros H. destruct ds as [|c r]; [reflexivity|]. unfold atoi_digits.
+  destruct (digits_val (c :: r) <=? max_int64) eqn:E; [reflexivity|lia].
+Qed.
+
+Lemma atoi_or_zero_big ds : max_int64 < digits_val ds ->
+  match ds with [] => Some 0 | _ => atoi_digits ds end = None.
+Proof.
+  intros H. destruct ds as [|c r]; [exfalso; unfold max_int64 in H; cbn in H; lia|]. unfold atoi_digits.
+  destruct (digits_val (c :: r) <=? max_int64) eqn:E; [lia|reflexivity].
+Qed.
+
+(* the value computed from the capture groups *)
+Lemma sm_ok_spec x : sm_ok x = true <-> - max_int64 <= x <= max_int64.
+Proof. unfold sm_ok, sm_min. lia. Qed.
+
+Lemma mul64_60 a : Z.abs a <= 153722867280912930 -> mul64 a 60 = Some (a * 60).
+Proof.
+  intros H. unfold mul64. change (Z.abs 60) with 60. change (max_int64 / 60) with 153722867280912930.
+  assert (sm_ok a = true) by (apply sm_ok_spec; unfold max_int64; lia).
+  match goal with |- (if ?c then _ else _) = _ => destruct c eqn:E end; [reflexivity|].
+  rewrite H0 in E. change (sm_ok 60) with true in E. cbn [andb] in E. lia.
+Qed.
+
+Lemma add64_ok a b : - max_int64 <= a <= max_int64 -> - max_int64 <= b <= max_int64 -> - max_int64 <= a + b <= max_int64 ->
+  add64 a b = Some (a + b).
+Proof.
+  intros Ha Hb Hc. unfold add64. apply sm_ok_spec in Ha, Hb, Hc. rewrite Ha, Hb, Hc. reflexivity.
+Qed.
+
+Lemma new_duration_fmt_ok h m sg plus zs : 0 <= h -> 0 <= m -> 60 * h + m <= max_int64 -> (sg = 1 \/ sg = -1) ->
+  new_duration_fmt (sg * h) (sg * m) plus zs = Ok {| d_mins := sg * (60 * h + m); d_plus := plus; d_zsign := zs |}.
+Proof.
+  intros Hh Hm Hb Hs. unfold new_duration_fmt.
+  rewrite mul64_60 by (unfold max_int64 in Hb; destruct Hs as [-> | ->]; lia).
+  rewrite add64_ok by (unfold max_int64 in *; destruct Hs as [-> | ->]; lia).
+  f_equal. f_equal. lia.
+Qed.
+
+Lemma parse_duration_of_match s m : match_duration s = Some m ->
+  dm_h m <> [] \/ dm_m m <> [] ->
+  0 <= digits_val (dm_h m) -> 0 <= digits_val (dm_m m) ->
+  60 * digits_val (dm_h m) + digits_val (dm_m m) <= max_int64 -> (dm_h m <> [] -> digits_val (dm_m m) < 60) ->
+  parse_duration s =
+  let sg := if (dm_sign m =? ch_minus)%N then -1 else 1 in
+  let a := 60 * digits_val (dm_h m) + digits_val (dm_m m) in
+  Ok {| d_mins := sg * a; d_plus := (dm_sign m =? ch_plus)%N;
+        d_zsign := if (a =? 0) && negb (dm_sign m =? 0)%N then sg else 0 |}.
+Proof.
+  intros M Hne Hh Hm Hb H60. unfold parse_duration. rewrite M. cbv zeta.
+  assert (S1 : (if (dm_sign m =? ch_minus)%N then -1 else 1) = 1 \/ (if (dm_sign m =? ch_minus)%N then -1 else 1) = -1)
+    by (destruct (dm_sign m =? ch_minus)%N; auto).
+  remember (if (dm_sign m =? ch_minus)%N then -1 else 1) as sg eqn:Esg. clear Esg.
+  remember (negb (dm_sign m =? 0)%N) as nz eqn:Enz. clear Enz.
+  destruct (dm_h m) as [|hc hr] eqn:Eh; destruct (dm_m m) as [|mc mr] eqn:Em.
+  - exfalso. destruct Hne; congruence.
+  - change (digits_val []) with 0 in *. unfold atoi_digits.
+    destruct (digits_val (mc :: mr) <=? max_int64) eqn:E; [|lia].
+    cbn [andb]. rewrite new_duration_fmt_ok by (try assumption; lia).
+    replace ((0 =? 0) && (digits_val (mc :: mr) =? 0)) with (60 * 0 + digits_val (mc :: mr) =? 0) by lia. reflexivity.
+  - change (digits_val []) with 0 in *. unfold atoi_digits.
+    destruct (digits_val (hc :: hr) <=? max_int64) eqn:E; [|lia].
+    change (true && (60 <=? 0)) with false. cbv iota. rewrite new_duration_fmt_ok by (try assumption; lia).
+    replace ((digits_val (hc :: hr) =? 0) && (0 =? 0)) with (60 * digits_val (hc :: hr) + 0 =? 0) by lia. reflexivity.
+  - unfold atoi_digits.
+    destruct (digits_val (hc :: hr) <=? max_int64) eqn:E; [|lia].
+    destruct (digits_val (mc :: mr) <=? max_int64) eqn:E2; [|lia].
+    assert (digits_val (mc :: mr) < 60) by (apply H60; discriminate).
+    destruct (true && (60 <=? digits_val (mc :: mr))) eqn:E3; [lia|].
+    rewrite new_duration_fmt_ok by (try assumption; lia).
+    replace ((digits_val (hc :: hr) =? 0) && (digits_val (mc :: mr) =? 0)) with (60 * digits_val (hc :: hr) + digits_val (mc :: mr) =? 0) by lia.
+    reflexivity.
+Qed.
+
+Lemma denote_dur_sign d :
+  (if (sign_char (du_sign d) =? ch_minus)%N then -1 else 1) = sign_factor (du_sign d)
+  /\ (sign_char (du_sign d) =? ch_plus)%N = match du_sign d with SPlus => true | _ => false end
+  /\ negb (sign_char (du_sign d) =? 0)%N = match du_sign d with SNone => false | _ => true end.
+Proof. destruct (du_sign d); repeat split; reflexivity. Qed.
+
+(* L0, durations: every duration literal of the specification whose amount fits int64 *)
+Lemma parse_render_dur d : wf_dur d = true -> parse_duration (render_dur d) = Ok (denote_dur d).
+Proof.
+  unfold wf_dur. intros W. apply andb_true_iff in W as [Sh Hb].
+  destruct (match_render_dur d Sh) as [M Hne].
+  pose proof Sh as Sh'. unfold dur_shape in Sh'. repeat (apply andb_true_iff in Sh' as [Sh' ?]).
+  pose proof (opt_value_nonneg _ H1) as Nh. pose proof (opt_value_nonneg _ H0) as Nm.
+  unfold dur_amount in Hb. rewrite !opt_value_digits in *.
+  rewrite (parse_duration_of_match _ _ M); cbn [dm_h dm_m dm_sign]; try assumption.
+  - cbv zeta. destruct (denote_dur_sign d) as (E1 & E2 & E3). rewrite E1, E2, E3.
+    unfold denote_dur, dur_amount. rewrite !opt_value_digits.
+    f_equal. f_equal.
+    destruct (60 * digits_val (opt_digits (du_h d)) + digits_val (opt_digits (du_m d)) =? 0); destruct (du_sign d); reflexivity.
+  - unfold max_int64. lia.
+  - intros Nh'. destruct (du_h d); cbn [opt_digits present] in *; [lia|congruence].
+Qed.
+
+(* beyond the guard the value constructor panics (finding K5): the guard of wf_dur is exact *)
+Lemma parse_render_dur_overflow d : dur_shape d = true -> max_int64 < dur_amount d ->
+  exists c, parse_duration (render_dur d) = Crash c.
+Proof.
+  intros Sh Hb. destruct (match_render_dur d Sh) as [M Hne].
+  pose proof Sh as Sh'. unfold dur_shape in Sh'. repeat (apply andb_true_iff in Sh' as [Sh' ?]).
+  pose proof (opt_value_nonneg _ H1) as Nh. pose proof (opt_value_nonneg _ H0) as Nm.
+  unfold dur_amount in Hb. rewrite !opt_value_digits in *.
+  unfold parse_duration. rewrite M. cbn [dm_h dm_m dm_sign].
+  set (hs := opt_digits (du_h d)) in *. set (ms := opt_digits (du_m d)) in *.
+  assert (H60 : hs <> [] -> digits_val ms < 60).
+  { subst hs ms. destruct (du_h d); cbn [opt_digits present] in *; [lia|congruence]. }
+  clearbody hs ms.
+  assert (Cases : forall (o1 o2 : option Z),
+    o1 = match hs with [] => Some 0 | _ => atoi_digits hs end ->
+    o2 = match ms with [] => Some 0 | _ => atoi_digits ms end ->
+    exists c, match o1 with None => Crash CAtoiRange | Some h =>
+      match o2 with None => Crash CAtoiRange | Some mi =>
+        if (match hs with [] => false | _ => true end) && (60 <=? mi) then Err EUnrepresentableDuration
+        else new_duration_fmt ((if (sign_char (du_sign d) =? ch_minus)%N then -1 else 1) * h)
+               ((if (sign_char (du_sign d) =? ch_minus)%N then -1 else 1) * mi) (sign_char (du_sign d) =? ch_plus)%N
+               (if (h =? 0) && (mi =? 0) && negb (sign_char (du_sign d) =? 0)%N then (if (sign_char (du_sign d) =? ch_minus)%N then -1 else 1) else 0)
+      end end = Crash c).
+  { intros o1 o2 E1 E2.
+    destruct (Z_le_gt_dec (digits_val hs) max_int64) as [L1|G1].
+    2:{ rewrite atoi_or_zero_big in E1 by lia. subst o1. eexists; reflexivity. }
+    rewrite atoi_or_zero in E1 by exact L1. subst o1.
+    destruct (Z_le_gt_dec (digits_val ms) max_int64) as [L2|G2].
+    2:{ rewrite atoi_or_zero_big in E2 by lia. subst o2. eexists; reflexivity. }
+    rewrite atoi_or_zero in E2 by exact L2. subst o2.
+    assert (G : (match hs with [] => false | _ => true end) && (60 <=? digits_val ms) = false).
+    { destruct hs as [|c r]; [reflexivity|]. cbn [andb]. assert (digits_val ms < 60) by (apply H60; discriminate). lia. }
+    rewrite G.
+    remember (if (sign_char (du_sign d) =? ch_minus)%N then -1 else 1) as sg eqn:Esg.
+    assert (S1 : sg = 1 \/ sg = -1) by (subst sg; destruct (sign_char (du_sign d) =? ch_minus)%N; auto).
+    unfold new_duration_fmt.
+    destruct (mul64 (sg * digits_val hs) 60) as [hm|] eqn:Emul; [|eexists; reflexivity].
+    assert (hm = sg * digits_val hs * 60).
+    { unfold mul64 in Emul. destruct (sm_ok (sg * digits_val hs) && sm_ok 60 && ((60 =? 0) || (Z.abs (sg * digits_val hs) <=? max_int64 / Z.abs 60))); congruence. }
+    subst hm.
+    destruct (add64 (sg * digits_val hs * 60) (sg * digits_val ms)) as [t|] eqn:Eadd; [|eexists; reflexivity].
+    exfalso. unfold add64 in Eadd.
+    destruct (sm_ok (sg * digits_val hs * 60) && sm_ok (sg * digits_val ms) && sm_ok (sg * digits_val hs * 60 + sg * digits_val ms)) eqn:E3; [|discriminate].
+    unfold sm_ok, sm_min in E3. destruct S1 as [-> | ->]; lia. }
+  destruct hs as [|hc hr]; destruct ms as [|mc mr].
+  - exfalso. destruct Hne; congruence.
+  - apply (Cases _ _ eq_refl eq_refl).
+  - apply (Cases _ _ eq_refl eq_refl).
+  - apply (Cases _ _ eq_refl eq_refl).
+Qed.
+
+(* ---- Duration.ToString writes a specification spelling ---- *)
+
+Lemma abs_quot_rem m : Z.abs (go_div m 60) = Z.abs m / 60 /\ Z.abs (go_mod m 60) = Z.abs m mod 60.
+Proof.
+  unfold go_div, go_mod. destruct (Z_le_gt_dec 0 m) as [H|H].
+  - rewrite Z.quot_div_nonneg, Z.rem_mod_nonneg by lia. rewrite (Z.abs_eq m) by lia.
+    pose proof (Z.div_pos m 60 H ltac:(lia)). pose proof (Z.mod_pos_bound m 60 ltac:(lia)). lia.
+  - replace m with (- (- m)) at 1 3 by lia. rewrite Z.quot_opp_l, Z.rem_opp_l by lia.
+    rewrite Z.quot_div_nonneg, Z.rem_mod_nonneg by lia. rewrite (Z.abs_neq m) by lia.
+    pose proof (Z.div_pos (- m) 60 ltac:(lia) ltac:(lia)). pose proof (Z.mod_pos_bound (- m) 60 ltac:(lia)). lia.
+Qed.
+
+Lemma print_duration_render d : print_duration d = render_dur (canon_dur d).
+Proof.
+  unfold print_duration, canon_dur, render_dur.
+  destruct (d_mins d =? 0) eqn:E0.
+  - cbn [du_sign du_h du_m]. destruct (d_zsign d <? 0); [reflexivity|]. destruct (0 <? d_zsign d); reflexivity.
+  - cbn [du_sign du_h du_m]. destruct (abs_quot_rem (d_mins d)) as [-> ->].
+    assert (Ha : 0 <= Z.abs (d_mins d) / 60) by (apply Z.div_pos; lia).
+    pose proof (Z.mod_pos_bound (Z.abs (d_mins d)) 60 ltac:(lia)) as Hb.
+    f_equal.
+    + destruct (d_mins d <? 0); [reflexivity|]. destruct (d_plus d); reflexivity.
+    + f_equal.
+      * destruct (0 <? Z.abs (d_mins d) / 60); [|reflexivity]. rewrite dec_of_nonneg by lia. reflexivity.
+      * destruct (0 <? Z.abs (d_mins d) mod 60); [|reflexivity]. rewrite dec_of_nonneg by lia. reflexivity.
+Qed.
+
+(* what reading back a printed duration yields: the value, and the notation flags that ToString shows *)
+Definition dur_canonical (d : duration) : duration :=
+  if d_mins d =? 0
+  then {| d_mins := 0; d_plus := 0 <? d_zsign d; d_zsign := if d_zsign d <? 0 then -1 else if 0 <? d_zsign d then 1 else 0 |}
+  else {| d_mins := d_mins d; d_plus := if d_mins d <? 0 then false else d_plus d; d_zsign := 0 |}.
+
+Lemma canon_dur_facts d : - max_int64 <= d_mins d <= max_int64 ->
+  wf_dur (canon_dur d) = true /\ denote_dur (canon_dur d) = dur_canonical d.
+Proof.
+  intros Hb. unfold canon_dur, dur_canonical.
+  destruct (d_mins d =? 0) eqn:E0.
+  - split.
+    + reflexivity.
+    + unfold denote_dur, dur_amount. cbn [du_sign du_h du_m opt_value]. change (integer_value [48%N]) with 0.
+      cbn [Z.mul Z.add Z.eqb].
+      destruct (d_zsign d <? 0) eqn:E1; [f_equal; lia|]. destruct (0 <? d_zsign d) eqn:E2; f_equal; lia.
+  - set (a := Z.abs (d_mins d)).
+    assert (Ha : 0 <= a / 60) by (apply Z.div_pos; lia).
+    pose proof (Z.mod_pos_bound a 60 ltac:(lia)) as Hm.
+    pose proof (Z.div_mod a 60 ltac:(lia)) as Hdm.
+    assert (Hv : dur_amount {| du_sign := if d_mins d <? 0 then SMinus else if d_plus d then SPlus else SNone;
+                      du_h := if 0 <? a / 60 then Some (decimal (a / 60)) else None;
+                      du_m := if 0 <? a mod 60 then Some (decimal (a mod 60)) else None |} = a).
+    { unfold dur_amount. cbn [du_h du_m].
+      destruct (0 <? a / 60) eqn:E1; destruct (0 <? a mod 60) eqn:E2; cbn [opt_value];
+        rewrite ?integer_value_digits_val, ?decimal_value by lia; lia. }
+    split.
+    + unfold wf_dur. rewrite Hv. unfold dur_shape. cbn [du_h du_m].
+      apply andb_true_iff. split; [|unfold max_int64 in Hb; lia].
+      destruct (0 <? a / 60) eqn:E1; destruct (0 <? a mod 60) eqn:E2; cbn [present opt_ok opt_value orb andb];
+        rewrite ?decimal_integer_ok, ?integer_value_digits_val, ?decimal_value by lia; try reflexivity; try lia.
+    + unfold denote_dur. rewrite Hv. cbn [du_sign].
+      replace (a =? 0) with false by lia.
+      destruct (d_mins d <? 0) eqn:E1; [cbn [sign_factor]; f_equal; lia|].
+      destruct (d_plus d); cbn [sign_factor]; f_equal; lia.
+Qed.
+
+Lemma duration_roundtrip d : - max_int64 <= d_mins d <= max_int64 ->
+  parse_duration (print_duration d) = Ok (dur_canonical d).
+Proof.
+  intros Hb. destruct (canon_dur_facts d Hb) as [W D].
+  rewrite print_duration_render, parse_render_dur by exact W. rewrite D. reflexivity.
 Qed.
